@@ -11,6 +11,7 @@
 #include <sys/syscall.h>
 #include <sys/types.h>
 #include <sys/mman.h>
+#include <sys/vfs.h>
 #include <sys/prctl.h>
 #include <pthread.h>
 #include <sys/stat.h>
@@ -286,6 +287,30 @@ int main(int argc, char **argv) {
       closedir(d); n += snprintf(buf + n, sizeof buf - n, "]");
     }
     n += snprintf(buf + n, sizeof buf - n, "}\n");
+    write(1, buf, n);
+    _exit(0);
+  } else if (!strcmp(c, "fsprobe")) {
+    // what a program sees of its root: listing of /, reachability of the old root, and per path: statfs flags and a write attempt
+    static char buf[1 << 16]; int n = 0; struct stat s1, s2;
+    n += snprintf(buf + n, sizeof buf - n, "{\"root\":[");
+    DIR *d = opendir("/"); struct dirent *e; int first = 1;
+    while (d && (e = readdir(d))) { if (!strcmp(e->d_name, ".") || !strcmp(e->d_name, "..")) continue;
+      n += snprintf(buf + n, sizeof buf - n, "%s\"%s\"", first ? "" : ",", e->d_name); first = 0; }
+    if (d) closedir(d);
+    int up = (stat("/", &s1) == 0 && stat("/..", &s2) == 0 && s1.st_ino == s2.st_ino && s1.st_dev == s2.st_dev);
+    n += snprintf(buf + n, sizeof buf - n, "],\"old_root\":%d,\"dotdot_is_root\":%d,\"root_write\":%d,\"paths\":{", access("/old_root", F_OK) == 0, up,
+                  mkdir("/.probe_dir", 0700) == 0 ? (rmdir("/.probe_dir"), 0) : errno);
+    for (int i = 2; i < argc; i++) {
+      struct statfs sf; int ro = -1; long ty = 0; if (statfs(argv[i], &sf) == 0) { ro = (sf.f_flags & 1) ? 1 : 0; ty = (long)sf.f_type; }
+      int werr = 0; struct stat st; static char pth[4200];
+      if (stat(argv[i], &st) != 0) werr = -errno;
+      else if (S_ISDIR(st.st_mode)) { snprintf(pth, sizeof pth, "%s/.probe_file", argv[i]); int fd = open(pth, O_CREAT | O_WRONLY, 0600); if (fd < 0) werr = errno; else { close(fd); unlink(pth); } }
+      else { int fd = open(argv[i], O_WRONLY | O_APPEND); if (fd < 0) werr = errno; else close(fd); }
+      n += snprintf(buf + n, sizeof buf - n, "%s\"%s\":{\"ro\":%d,\"write_errno\":%d,\"type\":%ld}", i > 2 ? "," : "", argv[i], ro, werr, ty);
+    }
+    // masked proc entries
+    int kc = -2; { int fd = open("/proc/timer_list", O_RDONLY); if (fd >= 0) { char b8[8]; kc = (int)read(fd, b8, 8); close(fd); } else kc = -errno; }
+    n += snprintf(buf + n, sizeof buf - n, "},\"kcore_read\":%d}\n", kc);
     write(1, buf, n);
     _exit(0);
   } else if (!strcmp(c, "secstate")) {
